@@ -186,7 +186,7 @@ class GenericGen:
                 it.untagged = True
         # defaults and concrete
         default_ts = {}
-        if r.random() < 0.35 and not const:     # (a defaulted type parameter cannot be followed by a const parameter)
+        if r.random() < 0.35 and not const:     # (a defaulted type parameter cannot be followed by a const parameter without default)
             last = params[-1]
             d = r.choice([prim("String"), user(self.dep), Ty("vec", args=[prim("u8")]), Ty("opt", args=[user(self.dep)])])
             if nparams >= 2 and r.random() < 0.45:
@@ -215,7 +215,8 @@ class GenericGen:
         for p in params:
             parts.append(f"{p} = {it.param_defaults[p]}" if p in it.param_defaults else p)
         if const:
-            parts.append("const N: usize")
+            # (a const parameter may carry a default; the instantiations below pass 3, never the default)
+            parts.append("const N: usize = 2" if r.random() < 0.5 else "const N: usize")
         it.generics_src = "<" + ", ".join(parts) + ">"
         if r.random() < 0.15 and any(True for _ in it.all_fields()):
             # declared through macro_rules!: every field type reaches the derive as a `$t:ty` fragment
